@@ -25,6 +25,9 @@ type InFlight struct {
 	Ack      []byte // non-nil for an acknowledgement travelling back
 	Height   int64  // height of the block on the source chain that committed it
 	SentStep int
+	Done     bool // delivered (tx succeeded) or given up
+	Fails    int
+	TimedOut bool // the packet can no longer be received; a MsgTimeout goes to the sender instead
 }
 
 // Link is the relayer's view of one provider<->consumer pair.
@@ -42,10 +45,11 @@ type Link struct {
 	XferProv   string // transfer channel end on provider
 	XferCons   string
 
-	ToCons     []InFlight // packets sent by provider
-	ToProv     []InFlight // packets sent by consumer
-	AcksToProv []InFlight // acks written on the consumer
-	AcksToCons []InFlight // acks written on the provider
+	ToCons     []*InFlight // packets sent by provider
+	ToProv     []*InFlight // packets sent by consumer
+	AcksToProv []*InFlight // acks written on the consumer
+	AcksToCons []*InFlight // acks written on the provider
+	Timeouts   []*InFlight // timed-out packets whose sender still has to be told (MsgTimeout)
 
 	Dead bool // the consumer chain is no longer produced
 }
@@ -187,14 +191,14 @@ func (r *Relayer) observeProviderBlock(c *Chain, res *abci.ResponseFinalizeBlock
 		if l == nil {
 			continue
 		}
-		l.ToCons = append(l.ToCons, InFlight{Packet: p, Height: h, SentStep: r.W.Step})
+		l.ToCons = append(l.ToCons, &InFlight{Packet: p, Height: h, SentStep: r.W.Step})
 	}
 	for _, a := range parseAcks(evs) {
 		l := r.linkByProvChannel(a.Packet.DestinationPort, a.Packet.DestinationChannel)
 		if l == nil {
 			continue
 		}
-		l.AcksToCons = append(l.AcksToCons, InFlight{Packet: a.Packet, Ack: a.Ack, Height: h, SentStep: r.W.Step})
+		l.AcksToCons = append(l.AcksToCons, &InFlight{Packet: a.Packet, Ack: a.Ack, Height: h, SentStep: r.W.Step})
 	}
 }
 
@@ -202,10 +206,10 @@ func (r *Relayer) observeConsumerBlock(l *Link, res *abci.ResponseFinalizeBlock)
 	evs := collectEvents(res)
 	h := l.C.Height()
 	for _, p := range parseSent(evs) {
-		l.ToProv = append(l.ToProv, InFlight{Packet: p, Height: h, SentStep: r.W.Step})
+		l.ToProv = append(l.ToProv, &InFlight{Packet: p, Height: h, SentStep: r.W.Step})
 	}
 	for _, a := range parseAcks(evs) {
-		l.AcksToProv = append(l.AcksToProv, InFlight{Packet: a.Packet, Ack: a.Ack, Height: h, SentStep: r.W.Step})
+		l.AcksToProv = append(l.AcksToProv, &InFlight{Packet: a.Packet, Ack: a.Ack, Height: h, SentStep: r.W.Step})
 	}
 }
 
@@ -216,32 +220,106 @@ func (r *Relayer) linkByProvChannel(port, channel string) *Link {
 			return l
 		}
 	}
+	// the provider may send on a channel in the very block that completes its handshake: ask the provider
+	if port == "provider" {
+		if id, ok := r.W.P.PApp.ProviderKeeper.GetChannelIdToConsumerId(r.W.P.Ctx(), channel); ok {
+			if l := r.Links[id]; l != nil {
+				l.ProvChan = channel
+				return l
+			}
+		}
+	}
 	return nil
 }
 
-// RecvMsgs builds the messages that deliver the first n relayable in-flight packets of `queue` from src to dst.
-// It returns the messages and the number of packets consumed from the queue.
-func (w *World) recvMsgs(queue []InFlight, n int, src, dst *Chain) ([]sdk.Msg, int) {
-	signer := w.relayerFor(dst).Addr.String()
-	var msgs []sdk.Msg
+// relayBatch builds one tx per item delivering up to n relayable items of the queue from src to dst.
+// Items leave the queue only when their tx succeeded (or after repeated failures); packets whose timeout
+// has passed on dst are moved to the link's timeout list instead.
+func (w *World) relayBatch(l *Link, queue *[]*InFlight, n int, src, dst *Chain, tag string) []TxSpec {
+	signer := w.relayerFor(dst)
+	var specs []TxSpec
 	k := 0
-	for _, f := range queue {
+	// compact
+	q := (*queue)[:0]
+	for _, f := range *queue {
+		if !f.Done {
+			q = append(q, f)
+		}
+	}
+	*queue = q
+	for _, f := range *queue {
 		if k >= n || f.Height >= src.Height() {
 			break
 		}
+		f := f
 		p := f.Packet
+		var msg sdk.Msg
 		if f.Ack == nil {
+			if p.TimeoutTimestamp != 0 && uint64(w.Now.UnixNano()) >= p.TimeoutTimestamp {
+				f.Done, f.TimedOut = true, true
+				l.Timeouts = append(l.Timeouts, &InFlight{Packet: p, Height: f.Height, SentStep: f.SentStep})
+				continue
+			}
 			key := host.PacketCommitmentKey(p.SourcePort, p.SourceChannel, p.Sequence)
 			proof, ph := proofAt(src, key)
-			msgs = append(msgs, channeltypes.NewMsgRecvPacket(p, proof, ph, signer))
+			msg = channeltypes.NewMsgRecvPacket(p, proof, ph, signer.Addr.String())
 		} else {
 			key := host.PacketAcknowledgementKey(p.DestinationPort, p.DestinationChannel, p.Sequence)
 			proof, ph := proofAt(src, key)
-			msgs = append(msgs, channeltypes.NewMsgAcknowledgement(p, f.Ack, proof, ph, signer))
+			msg = channeltypes.NewMsgAcknowledgement(p, f.Ack, proof, ph, signer.Addr.String())
 		}
+		specs = append(specs, TxSpec{Signer: signer, Msgs: []sdk.Msg{msg}, Tag: tag, OnResult: func(o TxOutcome) {
+			if o.OK() {
+				f.Done = true
+				return
+			}
+			f.Fails++
+			if f.Fails >= 6 {
+				f.Done = true
+				w.Event("_tx", "relayer-gave-up:"+tag)
+			}
+		}})
 		k++
 	}
-	return msgs, k
+	return specs
+}
+
+// timeoutSpecs builds MsgTimeout txs for timed-out packets sent by `sender`; cp is the chain that did not receive them.
+func (w *World) timeoutSpecs(l *Link, sender, cp *Chain, clientOnSender string) []TxSpec {
+	var specs []TxSpec
+	q := l.Timeouts[:0]
+	for _, f := range l.Timeouts {
+		if !f.Done {
+			q = append(q, f)
+		}
+	}
+	l.Timeouts = q
+	for _, f := range l.Timeouts {
+		f := f
+		p := f.Packet
+		fromSender := (sender.IsProvider && (p.SourcePort == "provider" || (p.SourcePort == "transfer" && p.SourceChannel == l.XferProv))) ||
+			(!sender.IsProvider && (p.SourcePort == "consumer" || (p.SourcePort == "transfer" && p.SourceChannel == l.XferCons)))
+		if !fromSender {
+			continue
+		}
+		// the counterparty must have a committed header whose time is past the timeout
+		hdr := cp.TC.LatestCommittedHeader
+		if hdr == nil || uint64(hdr.GetTime().UnixNano()) < p.TimeoutTimestamp {
+			continue
+		}
+		specs = append(specs, TxSpec{Signer: w.relayerFor(sender), Msgs: []sdk.Msg{w.timeoutMsg(p, cp, sender)}, Tag: "relay-timeout:" + l.CID, OnResult: func(o TxOutcome) {
+			if o.OK() {
+				f.Done = true
+				w.Event("_tx", "timeouts-delivered")
+				return
+			}
+			f.Fails++
+			if f.Fails >= 4 {
+				f.Done = true
+			}
+		}})
+	}
+	return specs
 }
 
 // timeoutMsg builds MsgTimeout for a packet sent by `src`-side whose counterparty is cp (proof of non-receipt on cp).
